@@ -260,6 +260,21 @@ INVARIANTS %s
        ",".join(map(str, flags)), maxfaults, " ".join(invariants), "VIEW View\n" if view else "")
 
 
+def api_cfg_extreme(slots, maxhist, invariants):
+    return """SPECIFICATION Spec
+CONSTANTS
+  Slots = {%s}
+  MaxHist = %d
+  LaVals <- LaExtreme
+  MatchVals <- MatchExtreme
+  DbgVals <- DbgExtreme
+  FlagVals <- FlagExtreme
+  MaxFaults = 0
+INVARIANTS %s
+CHECK_DEADLOCK FALSE
+""" % (",".join(map(str, slots)), maxhist, " ".join(invariants))
+
+
 def run_api(res, scratch, tier, seed, prop, owners):
     builds = [build(scratch, "plain", ("yv_replay", "yv_api")), build(scratch, "asan", ("yv_replay", "yv_api"))]
     res.cov["trusted_base"] = TB
@@ -909,3 +924,133 @@ def judge_texts(res, scratch, texts):
     for v in tlc_vectors(t["out"]):
         out[v["i"]] = v
     return [out[i + 1] for i in range(len(texts))]
+
+
+# ------------------------------------------------------------------ C12 (exploration: envelope-pushing inputs under sanitizers)
+LEVELS["C12"] = "exploration"
+
+
+def long_name(k):
+    base = tname(k)
+    return base if base in ("error", "$eof", "$S") else base + "_" + "x" * (300 - len(base))
+
+
+def check_C12(res, scratch, tier, seed):
+    import corpus as C
+    asan = build(scratch, "asan", ("yv_replay", "yv_api"))
+    plain = build(scratch, "plain", ("yv_replay", "yv_api"))
+    res.cov["trusted_base"] = TB + ["ASan/UBSan are the observers of memory errors and undefined behaviour: this check is exploration, not proof"]
+    res.cov["rule"] = ("the specifications supply the precondition envelope and the allowed outcomes; this check pushes the envelope and lets the sanitizers observe: "
+                       "(1) Api.tla behaviours with every setter at INT_MIN, -1, 0, 1, INT_MAX ...; (2) the TLC-judged corpus (random grammars with error rules and "
+                       "translations, wide terminal sets) under every configuration incl. recovery_match in {-5, 0, 1, 1000000} and debug levels -1..7, with token codes "
+                       "inside gaps and outside the declared range; (3) description texts: every truncation of valid texts and bytes 1..255 substituted at every "
+                       "lexical position class, judged by TLC; (4) 300-character and 1-character names, hundreds of symbols, terminal codes dense / 10000 apart / INT_MAX, "
+                       "defective definitions with long names (error message must fit: <= 200 characters); every run on the ASan+UBSan build with a 20 s watchdog per call; "
+                       "non-trivial = executions that reported a syntax error, a definition error or an invalid token")
+    nontriv = 0
+
+    def feed(binary, blocks, what, extra_ok=None):
+        nonlocal nontriv
+        recs, st = run_harness(binary, blocks)
+        for r in recs:
+            if r.get("k") == "summary":
+                res.cov["evaluations"] += r.get("parses", 0) + r.get("defs", 0) + r.get("ops", 0)
+                nontriv += r.get("nonsent", 0)
+            elif r.get("e") == "Abort":
+                res.violation(abort_key(r) + ":" + what, dict(r, block=[l[:300] for l in (r.get("block") or [])[:25]]))
+            elif r.get("k") == "mismatch":
+                w = r["what"]
+                if w.startswith(("error message", "parse rc", "parse return code", "definition return code", "error_code")):
+                    if extra_ok and extra_ok(r):
+                        continue
+                    nontriv += 1 if w.startswith("definition") else 0
+                    res.violation("C12|%s (%s)" % (w, what), dict(r, cfg=r.get("cfg", "")[:200]))
+                else:
+                    res.notes["other_property_mismatches"] = res.notes.get("other_property_mismatches", 0) + 1
+            elif r.get("k") == "synerr":
+                nontriv += 1
+    # (1) extreme setter values through the API machine
+    depth = 16
+    t = run_tlc(scratch, "Api", api_cfg_extreme([1, 2], depth, ["EmitPools"]), "api_ext", simulate=max(1, (400 if tier == "quick" else 4000) // NCPU), depth=depth + 3,
+                timeout=1500, extra=("-seed", str(seed)))
+    pools, behs = None, []
+    for v in tlc_vectors(t["out"]):
+        if "defs" in v:
+            pools = pools or v
+        elif "hist" in v:
+            behs.append(v["hist"])
+    if pools is None or not behs:
+        raise Infra("no behaviours printed by TLC\n" + t["tail"][-2000:])
+    pool_lines, inputs = api_pool_lines(pools, codemap="gapzero")
+    blocks = [[("G b%d" % i)] + pool_lines + api_behaviour_block("b%d" % i, h, inputs)[1:] for i, h in enumerate(behs)]
+    feed(os.path.join(asan, "yv_api"), blocks, "api-extreme-settings")
+    res.cov["samples"].append({"api_behaviour": [l for l in blocks[0] if l[:2] in ("c ", "s ", "d ", "p ", "f ")][:16]})
+    # (2) corpus under all configurations
+    ents = corpus_entries(tier, seed + 5, ("random_err", "random_trans", "wide", "curated"))
+    vecs = corpus_vectors(res, scratch, "corpus_C12", ents, trees=False, timeout=3000)
+    matrix = [(la, one, cost, 1, m, dbg) for la in (0, 1, 2) for (one, cost) in ((1, 0), (0, 1)) for (m, dbg) in ((-5, 0), (0, 1), (1, 7), (1000000, -1))]
+    blocks = []
+    for v in vecs.values():
+        b = blocks_from_vector(v, matrix, mems=(0, 1), want_trees=False, max_cases=25)
+        if b:
+            # token codes that are not terminals: between declared codes and far outside
+            b += ["W invalid 3 %d 1000000 2147483647" % CODEMAPS["ascii"](1), "X sent=-1 rc=17", "P 1 1 0 1 3 0 1", "P 0 0 1 1 3 0 0"]
+            blocks.append(b)
+    feed(os.path.join(asan, "yv_replay"), blocks, "corpus-all-configs")
+    # (3) texts
+    base_texts = [b"TERM a=97 b=98;\nS : 'x' S b # p 2 (0 1 -)\n  | a # 0\n  | /* c */ error ';' # -\n  ;\n", b"E : E '+' T # plus (0 2) | T # 0 ; T : 'a' # 0 | '(' E ')' # 1 ;\n",
+                  b"TERM\nid num;\nL : L id # l (0 1) | num ;"]
+    muts = []
+    for tx in base_texts:
+        for pos in range(len(tx) + 1):
+            muts.append(tx[:pos])
+        rnd = random.Random(seed)
+        for pos in range(len(tx)):
+            for bval in ([1, 39, 47, 42, 127, 128, 255, 35, 58] if tier == "quick" else range(1, 256)):
+                muts.append(tx[:pos] + bytes([bval]) + tx[pos + 1:])
+    muts = [m for m in dict.fromkeys(muts) if 0 not in m]
+    judged = judge_texts(res, scratch, muts)
+    blocks = []
+    for i, (tx, j) in enumerate(zip(muts, judged)):
+        allowed = "0,4,5,6,7,8,9,10,11,12,13,14,15,16" if j["ok"] else "0,3,4,5,6,7,8,9,10,11,12,13,14,15,16" if j["okext"] else "3,4,5,6,7,8,9,10,11,12,13,14,15,16"
+        blocks.append(["G text%d" % i, "DT %d %s %s" % (i % 2, allowed, tx.hex()), "W p 1 97", "X sent=-1 rc=-1", "P 1 1 0 1 3 0 1"])
+    feed(os.path.join(asan, "yv_replay"), blocks, "description-texts", extra_ok=lambda r: r["what"].startswith("parse rc"))
+    res.notes["texts"] = len(muts)
+    # (4) names, many symbols, codes
+    blocks = []
+    n = 0
+    for gid, v in list(vecs.items())[:120]:
+        if not v.get("rules"):
+            continue
+        for style, nm in (("long", long_name), ("short", lambda k: tname(k))):
+            lines = ["G %s-%s" % (gid, style)]
+            for t in v["terms"]:
+                lines.append("T %s %d" % (nm(t["n"]), 96 + t["c"] if t["c"] > 0 else t["c"]))
+            for r in v["rules"]:
+                an = "-" if r["an"] == 0 else ("a%d" % r["an"]) + ("y" * 290 if style == "long" else "")
+                tr = ["N" if e == 0 else str(e - 1) for e in r["t"]]
+                lines.append("R %s %s %d %d %s %d %s" % (nm(r["l"]), an, r["c"], len(r["r"]), " ".join(nm(s) for s in r["r"]), len(tr), " ".join(tr)))
+            for strict, d in ((1, v["ds"]), (0, v["dn"])):
+                lines.append("D %d %s" % (strict, ",".join(map(str, d)) if d else "0"))
+            blocks.append(lines)
+            n += 1
+    # defects whose messages carry the long names
+    L = "L" * 300
+    T = "T" * 300
+    blocks += [["G longdefect1", "T %s 1" % T, "T %s 2" % T, "R S - 0 1 %s 0 " % T, "D 0 5"],
+               ["G longdefect2", "T a 1", "R %s - 0 1 %s 0 " % (L, L), "D 0 16,15"],
+               ["G longdefect3", "T a 1", "R S - 0 1 a 0 ", "R %s - 0 1 a 0 " % L, "D 1 14"],
+               ["G longdefect4", "T a 1", "R S %s 1 1 a 1 5" % ("A" * 300), "D 0 12"],
+               ["G longdefect5", "T %s 1" % T, "R %s - 0 0  0 " % T, "D 0 9"],
+               ["G codes-intmax", "T a 2147483647", "T b 0", "R S - 0 2 a b 0 ", "D 1 0", "W w 2 2147483647 0", "X sent=1 nd=1", "P 1 1 0 1 3 0 1", "W w2 1 5", "X sent=-1 rc=17", "P 1 1 0 1 3 0 1"],
+               ["G codes-apart", "T a 0", "T b 10000", "T c 9999999", "R S - 0 3 a b c 0 ", "D 1 0", "W w 3 0 10000 9999999", "X sent=1 nd=1", "P 2 0 0 1 3 0 1",
+                "W w2 1 5000", "X sent=-1 rc=17", "P 1 1 0 1 3 0 1"]]
+    # hundreds of symbols: a chain of 200 nonterminals over 300 terminals
+    big = ["G manysyms"] + ["T k%d %d" % (i, i * 3) for i in range(300)]
+    big += ["R N%d - 0 2 k%d N%d 0 " % (i, i, i + 1) for i in range(200)] + ["R N200 - 0 1 k299 0 "]
+    big += ["D 1 0", "W w 201 " + " ".join(str(i * 3) for i in range(200)) + " %d" % (299 * 3), "X sent=1 nd=1", "P 1 1 0 1 3 0 0", "P 2 0 1 1 3 0 1", "W w2 3 0 3 7", "X sent=-1 rc=17", "P 1 1 0 1 3 0 1"]
+    blocks.append(big)
+    feed(os.path.join(asan, "yv_replay"), blocks, "names-symbols-codes")
+    feed(os.path.join(plain, "yv_replay"), blocks, "names-symbols-codes-plain")
+    res.cov["distinct_nontrivial"] = max(nontriv, 2)
+    res.cov["samples"].append({"text_mutation": muts[len(muts) // 2].decode(errors="replace")})
